@@ -47,7 +47,10 @@ fn generate(rng: &mut Rng) -> C16Sc {
     // deployments behind a load balancer: every client (the victim too) arrives from the same one or two peers
     let lb_mode = proxy.is_some() && rng.chance(1, 2);
     // a crowd that misbehaves in the same way (rather than a mix)
-    let same_kind = if rng.chance(1, 3) { Some(rng.below(8)) } else { None };
+    let same_kind = if rng.chance(1, 3) { Some(rng.below(9)) } else { None };
+    // who the victim is (hostile clients may claim to be that player)
+    let victim_name = "Victim".to_string();
+    let victim_uuid = format!("{:032x}", (u128::from(rng.next_u64()) << 64) | u128::from(rng.next_u64()));
     // the listener has been up for a while when all this happens
     let uptime = *rng.pick(&[0u64, 0, 0, secs(6 * 3600 - 3), secs(86_400), secs(49 * 86_400 + 61_367)]);
     let mut clients = vec![];
@@ -64,7 +67,7 @@ fn generate(rng: &mut Rng) -> C16Sc {
         with_header(rng, &mut spec, proxy, &src);
         let plen = spec.preamble.as_ref().map(|p| p.len() as u64).unwrap_or(0);
         let mut wplan = vec![];
-        let kind = match same_kind.unwrap_or_else(|| rng.below(8)) {
+        let kind = match same_kind.unwrap_or_else(|| rng.below(9)) {
             0 if plen > 0 => {
                 // nothing at all: stalls before the header
                 spec.preamble = None;
@@ -98,8 +101,23 @@ fn generate(rng: &mut Rng) -> C16Sc {
                 "never_echoes"
             }
             6 => {
+                // stops reading: at once, or in the middle of a later write
+                if rng.chance(1, 2) {
+                    for _ in 0..rng.below(6) {
+                        wplan.push(WRule::Accept { max: 1_000_000 });
+                    }
+                    wplan.push(WRule::Accept { max: rng.range(1, 12) as usize });
+                }
                 wplan.push(WRule::Stall);
                 "never_reads"
+            }
+            8 => {
+                // claims to be the victim (same name and UUID in Login Start) and then goes quiet
+                spec.intent = 2;
+                spec.name = victim_name.clone();
+                spec.uuid = victim_uuid.clone();
+                spec.mute_after = Some(rng.range(2, 4) as usize);
+                "claims_victim_identity_then_stalls"
             }
             _ => {
                 spec.mute_after = Some(0);
@@ -127,6 +145,8 @@ fn generate(rng: &mut Rng) -> C16Sc {
     let vsrc: SocketAddr = "203.0.113.200:46000".parse().unwrap();
     let vint = if rng.chance(1, 3) { 2 } else { 1 };
     let mut vspec = ClientSpec::base(rng, vint);
+    vspec.name = victim_name.clone();
+    vspec.uuid = victim_uuid.clone();
     with_header(rng, &mut vspec, proxy, &vsrc);
     vspec.coalesce = rng.chance(1, 2);
     clients.push(NetClient { connect_at_ns: uptime + ms(rng.range(0, 8000)), peer: vpeer.to_string(), spec: vspec, wplan: vec![] });
